@@ -29,8 +29,9 @@ const c25Rule = "SQL programs of 10-28 statements drawn by rapid over one table 
 
 const c25Finding = "C25-keyless-prefix-outofband"
 
-// keyless table with a UNIQUE index and other indexes: INSERT … ON DUPLICATE KEY UPDATE that
-// hits the unique index leaves the entries of the rejected row in the other indexes
+// keyless table with a UNIQUE index and other indexes: INSERT … ON DUPLICATE KEY UPDATE (or
+// REPLACE) that hits the unique index leaves the entries of the rejected row in the other
+// indexes; with two unique indexes REPLACE then panics on its own leftover entry
 const c25FindingODKU = "C25-keyless-odku-partial-index-writes"
 
 // a merge that rebuilds a UNIQUE index leaves out the rows whose key contains NULL
@@ -75,7 +76,7 @@ type c25State struct {
 	excluded  int
 	// finding C25-prefix-bytes-multibyte is listed open: skip the affected point lookups
 	skipPrefixMB bool
-	// finding C25-keyless-odku-partial-index-writes is listed open: no ODKU on keyless tables with a unique index
+	// finding C25-keyless-odku-partial-index-writes is listed open: no ODKU / REPLACE on keyless tables with a unique index
 	noKeylessODKU bool
 	// finding C25-merge-unique-rebuild-drops-null-keys is listed open: after a merge-like statement,
 	// entries missing from a UNIQUE index are tolerated when their key contains NULL
@@ -289,6 +290,15 @@ func (c *c25State) other(label string) (string, bool) {
 	return rapid.SampledFrom(o).Draw(c.rt, label), true
 }
 
+// changedSince reports whether the table content differs from before (false when the table
+// no longer exists, e.g. after reverting the commit that created it).
+func (c *c25State) changedSince(before [][]string) bool {
+	if c.refreshSchema("") == nil {
+		return false
+	}
+	return !sxRowsEqual(sxSortRows(before), sxSortRows(c.fullScan("")))
+}
+
 func (c *c25State) hasUnique() bool {
 	for _, ix := range c.sch.Indexes {
 		if ix.Unique {
@@ -382,7 +392,7 @@ func (c *c25State) step(i int, pool []string, kind string) bool {
 		}
 		verb := rapid.SampledFrom([]string{"INSERT", "INSERT", "INSERT IGNORE", "REPLACE", "ODKU"}).Draw(rt, lb+".verb")
 		tail := ""
-		if verb == "ODKU" && keyless && c.noKeylessODKU && c.hasUnique() {
+		if (verb == "ODKU" || verb == "REPLACE") && keyless && c.noKeylessODKU && c.hasUnique() {
 			verb = "INSERT"
 			c.excluded++
 			c.class("odku_excluded_known")
@@ -426,8 +436,7 @@ func (c *c25State) step(i int, pool []string, kind string) bool {
 		}
 		before := c.lastRows
 		if err := c.exec(q); err == nil && setsIdx {
-			now := c.fullScan("")
-			if !sxRowsEqual(sxSortRows(before), sxSortRows(now)) {
+			if c.changedSince(before) {
 				c.fUpdIdx = true
 			}
 		}
@@ -576,7 +585,7 @@ func (c *c25State) step(i int, pool []string, kind string) bool {
 		err := c.exec("CALL dolt_merge(" + flag + "'" + o + "')")
 		if err == nil {
 			c.afterMergeLike(lb)
-			if !sxRowsEqual(sxSortRows(before), sxSortRows(c.fullScan(""))) {
+			if c.changedSince(before) {
 				c.fVC = true
 				c.class("merge_changed_table")
 			}
@@ -593,7 +602,7 @@ func (c *c25State) step(i int, pool []string, kind string) bool {
 		err := c.exec("CALL dolt_cherry_pick('" + spec + "')")
 		if err == nil {
 			c.afterMergeLike(lb)
-			if !sxRowsEqual(sxSortRows(before), sxSortRows(c.fullScan(""))) {
+			if c.changedSince(before) {
 				c.fVC = true
 				c.class("cherrypick_changed_table")
 			}
@@ -604,7 +613,7 @@ func (c *c25State) step(i int, pool []string, kind string) bool {
 		before := c.lastRows
 		c.mergeLike = true
 		if err := c.exec("CALL dolt_revert('" + spec + "')"); err == nil {
-			if !sxRowsEqual(sxSortRows(before), sxSortRows(c.fullScan(""))) {
+			if c.changedSince(before) {
 				c.fVC = true
 				c.class("revert_changed_table")
 			}
@@ -1007,6 +1016,50 @@ func (c *c25State) validateInProc(spec sxRootSpec, rows [][]string, sch *sxSchem
 		c.fail("%s: stored index set %v differs from the schema SQL shows (%d indexes)", spec, names, len(sch.Indexes))
 	}
 	keyless := len(sch.PK) == 0
+	// A keyless table stores one clustered entry (row hash -> cardinality + values) per distinct
+	// stored row, and each secondary index holds one entry per clustered entry. Identical rows
+	// can live under several hashes (e.g. after a column was dropped by a merge), so the
+	// expected index entries are computed from the clustered entries, which in turn must
+	// expand (entry x cardinality) to exactly the rows the SQL full scan returned.
+	var keylessSrc [][]string
+	if keyless {
+		prim, err := c.inproc.readKeylessPrimary(c.db, spec, "t")
+		if err == errSxUnsupported {
+			c.class("inproc_unsupported_type")
+			return
+		}
+		if err != nil || prim == nil {
+			c.fail("%s: cannot read the clustered map of the keyless table in process: %v", spec, err)
+		}
+		var expanded [][]string
+		for i, m := range prim.Rows {
+			r := make([]string, len(sch.Cols))
+			for j, col := range sch.Cols {
+				v, ok := m[col.Name]
+				if !ok {
+					c.fail("%s: stored row has no column %s", spec, col.Name)
+				}
+				r[j] = v
+			}
+			keylessSrc = append(keylessSrc, r)
+			if prim.Cards[i] < 1 {
+				c.fail("%s: stored keyless row %s has cardinality %d", spec, sxShowRow(r), prim.Cards[i])
+			}
+			for k := 0; k < prim.Cards[i]; k++ {
+				expanded = append(expanded, r)
+			}
+		}
+		if !sxRowsEqual(sxSortRows(expanded), sxSortRows(rows)) {
+			c.fail("%s: the stored clustered map of the keyless table (entries x cardinality) differs from the SQL full scan\n stored:    %s\n full scan: %s", spec, sxShowRows(sxSortRows(expanded)), sxShowRows(sxSortRows(rows)))
+		}
+		distinct := map[string]bool{}
+		for _, r := range keylessSrc {
+			distinct[strings.Join(r, "\x1f")] = true
+		}
+		if len(distinct) != len(keylessSrc) {
+			c.class("keyless_identical_rows_under_several_hashes")
+		}
+	}
 	for _, ix := range sch.Indexes {
 		si, ok := stored[ix.Name]
 		if !ok {
@@ -1018,16 +1071,7 @@ func (c *c25State) validateInProc(spec sxRootSpec, rows [][]string, sch *sxSchem
 		}
 		src := rows
 		if keyless {
-			// one entry per distinct row
-			seen := map[string]bool{}
-			src = nil
-			for _, r := range rows {
-				k := strings.Join(r, "\x1f")
-				if !seen[k] {
-					seen[k] = true
-					src = append(src, r)
-				}
-			}
+			src = keylessSrc
 		}
 		want := c25Project(sch, src, si.Cols)
 		for _, e := range want {
@@ -1326,8 +1370,10 @@ func TestVerif_C25(t *testing.T) {
 		"index prefix lengths are compared as dolt applies them (bytes); a character-based rule is accepted as well",
 		"collation equality classes are modelled only for the generated alphabet (ASCII, á, É, CJK; no trailing spaces)",
 		"in-process reading decodes integer and string/byte key fields only (the generator creates no other indexed types)",
+		"keyless tables: the stored index must hold one entry per stored clustered entry (row hash); the clustered entries x cardinality must equal the SQL full scan. Identical rows stored under several hashes (seen after a merge that drops a column) are accepted as long as SQL reads agree",
 		"while finding "+c25Finding+" is listed open, keyless tables get no out-of-band (long) TEXT/BLOB values; such cases are counted as excluded_known",
-		"while finding "+c25FindingODKU+" is listed open, keyless tables with a unique index get no INSERT … ON DUPLICATE KEY UPDATE (plain INSERT instead; counted as excluded_known)",
+		"while finding "+c25FindingODKU+" is listed open, keyless tables with a unique index get no INSERT … ON DUPLICATE KEY UPDATE and no REPLACE (plain INSERT instead; counted as excluded_known)",
+		"a connection dropped by the server during a program statement fails the case (it means a panic in the statement handler)",
 		"while finding "+c25FindingUniqNull+" is listed open, after a merge/cherry-pick/revert/stash-pop statement a UNIQUE index may miss entries whose indexed columns contain NULL (and only those; nothing extra): such mismatches are skipped and counted as excluded_known",
 		"while finding "+c25FindingPrefix+" is listed open, point lookups constraining a non-binary-collated column that is a prefix-length part of some index are skipped when the probe or the column holds multi-byte characters (counted as excluded_known); full-range index scans and the stored-map comparison stay active")
 	defer rec.Write(t)
@@ -1378,5 +1424,5 @@ func TestVerif_C25(t *testing.T) {
 			t.Errorf("%s", msg)
 		}
 	})
-	vh.Check(t, "programs", 110, 220, func(rt *rapid.T) { c25Case(rt, srv, admin, rec, open, openPfx, openODKU, openUN) })
+	vh.Check(t, "programs", 110, 350, func(rt *rapid.T) { c25Case(rt, srv, admin, rec, open, openPfx, openODKU, openUN) })
 }
